@@ -15,7 +15,9 @@ import (
 	"context"
 	"fmt"
 	"math/rand/v2"
+	"os"
 	"sort"
+	"strconv"
 	"strings"
 
 	"github.com/celestiaorg/celestia-app/v9/pkg/appconsts"
@@ -67,13 +69,21 @@ type c11BlockOpts struct {
 	MaxNS        int // namespaces used by one block (1..MaxNS), pool of 6
 	Huge         bool
 	ForceNSCount int // if > 0: exactly that many namespaces
+	// WideEvery > 0: one block in WideEvery gets a filler blob of > 4096 shares in the highest pool
+	// namespace, which makes the square 128 shares wide: only then can a blob that is preceded by
+	// alignment padding (>= 65 shares) be followed by another blob in the same row.
+	WideEvery int
 }
 
 func c11DefaultOpts() c11BlockOpts {
-	if vk.Thorough() {
-		return c11BlockOpts{MaxBlobs: 12, MaxShares: 2600, MaxNS: 4, Huge: true}
+	wide := 80
+	if v, err := strconv.Atoi(os.Getenv("VERIF_C11_WIDE_EVERY")); err == nil {
+		wide = v
 	}
-	return c11BlockOpts{MaxBlobs: 12, MaxShares: 700, MaxNS: 4, Huge: true}
+	if vk.Thorough() {
+		return c11BlockOpts{MaxBlobs: 12, MaxShares: 2600, MaxNS: 4, Huge: true, WideEvery: wide}
+	}
+	return c11BlockOpts{MaxBlobs: 12, MaxShares: 700, MaxNS: 4, Huge: true, WideEvery: wide}
 }
 
 const c11NSPool = 6
@@ -145,10 +155,26 @@ func c11GenBlock(t *rapid.T, label string, o c11BlockOpts) *c11Block {
 
 	blk := &c11Block{Seed: seed}
 	budget := o.MaxShares
+	wide := o.WideEvery > 0 && rapid.IntRange(1, o.WideEvery).Draw(t, label+".wide") == 1
+	if wide {
+		// keep the ordinary blobs inside the first rows of the 128-wide square and below the filler
+		budget = 220
+		if nBlobs < 3 {
+			nBlobs = 3
+		}
+		for i := range used {
+			if used[i] == c11NSPool-1 {
+				used[i] = rapid.IntRange(0, c11NSPool-2).Draw(t, label+".widens")
+			}
+		}
+	}
 	for i := 0; i < nBlobs; i++ {
 		l := fmt.Sprintf("%s.b%d", label, i)
 		g := &c11GenBlob{DupOf: -1}
 		kind := rapid.IntRange(0, 9).Draw(t, l+".kind")
+		if wide && i < 3 {
+			kind = 9 // the first three blobs of a wide block: small, >= 65 shares, small - one namespace
+		}
 		switch {
 		case kind == 0 && len(blk.Blobs) > 0:
 			// byte-identical duplicate of an earlier blob (same namespace, data, version, signer)
@@ -186,6 +212,9 @@ func c11GenBlock(t *rapid.T, label string, o c11BlockOpts) *c11Block {
 				classes = classes[:len(classes)-1]
 			}
 			class := rapid.SampledFrom(classes).Draw(t, l+".class")
+			if wide && i < 3 {
+				class = rapid.SampledFrom([][]string{{"1B", "share+1", "few"}, {"big"}, {"1B", "share", "few"}}[i]).Draw(t, l+".wideclass")
+			}
 			ver := uint8(rapid.IntRange(0, 1).Draw(t, l+".ver"))
 			first := libshare.FirstSparseShareContentSize
 			var signer []byte
@@ -194,6 +223,9 @@ func c11GenBlock(t *rapid.T, label string, o c11BlockOpts) *c11Block {
 			}
 			n := c11BlobDataLen(t, l, class, first)
 			nsIdx := used[rapid.IntRange(0, nsCount-1).Draw(t, l+".ns")]
+			if wide && i < 3 {
+				nsIdx = used[0]
+			}
 			data := fill(n)
 			if ver == libshare.ShareVersionOne {
 				signer = fill(libshare.SignerSize)
@@ -226,6 +258,18 @@ func c11GenBlock(t *rapid.T, label string, o c11BlockOpts) *c11Block {
 		blk.Blobs = append(blk.Blobs, g)
 	}
 
+	if wide {
+		n := rapid.IntRange(4100, 4400).Draw(t, label+".filler")
+		lib, err := libshare.NewBlob(vk.BlobNS(c11NSPool-1), fill(libshare.FirstSparseShareContentSize+(n-1)*libshare.ContinuationSparseShareContentSize), libshare.ShareVersionZero, nil)
+		if err != nil {
+			t.Fatalf("VERIF-INFRA: NewBlob: %v", err)
+		}
+		com, err := inclusion.CreateCommitment(lib, merkle.HashFromByteSlices, appconsts.SubtreeRootThreshold)
+		if err != nil {
+			t.Fatalf("VERIF-INFRA: CreateCommitment: %v", err)
+		}
+		blk.Blobs = append(blk.Blobs, &c11GenBlob{Lib: lib, NSIdx: c11NSPool - 1, SizeClass: "filler", DupOf: -1, Shares: n, Commitment: com})
+	}
 	// ordinary transactions: opaque bytes that are neither a BlobTx nor a cosmos tx (first byte is
 	// an invalid protobuf tag), sizes from one byte to several compact shares
 	nNormal := rapid.IntRange(0, 3).Draw(t, label+".ntxs")
